@@ -43,6 +43,14 @@ const (
 	polUnsupported
 )
 
+func isUnsafeBuiltin(n string) bool {
+	switch strings.TrimPrefix(n, "unsafe.") {
+	case "Add", "Slice", "String", "StringData", "SliceData":
+		return true
+	}
+	return false
+}
+
 var fnInfos sync.Map // *ssa.Function -> *fnInfo
 
 func infoOf(fn *ssa.Function) *fnInfo {
@@ -77,7 +85,7 @@ func infoOf(fn *ssa.Function) *fnInfo {
 								fi.origin[ia] = true
 							}
 						case *ssa.Call:
-							if bi, ok := r.Call.Value.(*ssa.Builtin); ok && strings.HasPrefix(bi.Name(), "unsafe.") {
+							if bi, ok := r.Call.Value.(*ssa.Builtin); ok && isUnsafeBuiltin(bi.Name()) {
 								if fi.origin == nil {
 									fi.origin = map[*ssa.IndexAddr]bool{}
 								}
@@ -748,6 +756,9 @@ func runFrame(fr *frame) {
 		if u, ok := p.(unsupported); ok && u.stack == "" {
 			u.stack = stackOf(fr)
 			panic(u)
+		}
+		if re, ok := p.(runtime.Error); ok {
+			panic(engineFault{fmt.Sprintf("host runtime error: %v; target stack:%s", re, stackOf(fr))})
 		}
 		if isControlPanic(p) {
 			panic(p)
